@@ -8,7 +8,7 @@ from ..oracles.docmodel import scan, as_items, split_lines
 MANIFEST = dict(
     engines="A",
     technique="symbolic execution (CrossHair+z3) of the format-preserving parser's structural operations (order_first/last/before/after, sort_fields, indexed and unindexed set/delete, Deb822FileElement.insert/append) over a catalogue of documents with unique and duplicated field names: operation codes, paragraph, field, occurrence index and reference operands are symbolic integers; the dump is compared with a reference list model of whole field texts",
-    text="Bounded model checking of operation histories: for 9 documents (duplicated names, comments attached to fields, free comments between paragraphs, with/without final newline) and every sequence of 1 (thorough: 2) operations with all operands, the dump equals the concatenation of the model's field texts (each field's name, value and attached comments byte-for-byte, up to a supplied final newline), occurrences of a duplicated field moved together keep their relative order, (name, i) denotes the i-th occurrence in document order, and an independent re-scan plus a fresh parse yield the model's paragraphs; inserted/appended paragraphs never merge with neighbours and leave every original line in place.",
+    text="Bounded model checking of operation histories: for 9 documents (duplicated names, comments attached to fields, free comments between paragraphs, with/without final newline) and every sequence of 1 (thorough: 2) operations with all operands, the dump equals the concatenation of the model's field texts (each field's name, value and attached comments byte-for-byte, up to a supplied final newline), occurrences of a duplicated field moved together keep their relative order, (name, i) denotes the i-th occurrence in document order, and an independent re-scan plus a fresh parse yield the model's paragraphs; inserted/appended paragraphs never merge with neighbours and leave every original line in place. Chains: 0-3 (thorough: 4) operations of one kind with free operands on the last paragraph followed by append; a document with four occurrences of one name.",
     note="Documents are concrete; operations and operands are symbolic indices (solver-driven enumeration of histories, every path runs the real code). References in order_before/order_after are unique or indexed fields (an unindexed duplicated reference is not defined by the statement). The placement of an inserted paragraph relative to free-floating comments is unspecified by the library and not checked beyond 'no line lost, paragraphs in model order'.",
 )
 
